@@ -133,7 +133,7 @@ Section Sem.
     | ICall name args => exec_call sigs name args s
     | ILoad d src off => Some (assign [(d, s src (to_index (rd s off)))])
     | IStore dst off o => Some (assign [((dst, to_index (rd s off)), opval s o)])
-    | INoAccess _ | IUnscanned _ _ | IDefGateSeq _ | IBlock _ _ _ => Some no_effect   (* definitions are not executed *)
+    | INoAccess _ | IDefGateSeq _ | IBlock _ _ _ => Some no_effect   (* definitions are not executed *)
     end.
 
   (** applying the assignments, in order *)
@@ -167,13 +167,6 @@ Definition instr_exprs (i : instr) : list expr :=
   | IDefGateSeq gates => concat gates
   | IBlock KDefCal params _ => params
   | _ => []
-  end.
-
-(** ... including the two definition kinds [memory_accesses] does not scan *)
-Definition all_exprs (i : instr) : list expr :=
-  match i with
-  | IUnscanned _ es => es
-  | _ => instr_exprs i
   end.
 
 (** ** A concrete interpretation over [Z] (for witnesses). *)
